@@ -112,7 +112,26 @@ func genFields(r *rand.Rand, depth int) []field {
 	return out
 }
 
+// deepVal nests a two-valued leaf under n single-element containers (all lists or all one-field maps):
+// contexts that differ only below dozens of container levels must still get different keys.
+func deepVal(r *rand.Rand) val {
+	n := []int{5, 17, 31, 32, 33, 40, 64}[r.IntN(7)]
+	v := vBool(r.IntN(2) == 0)
+	asList := r.IntN(2) == 0
+	for i := 0; i < n; i++ {
+		if asList {
+			v = val{k: 'L', l: []val{v}}
+		} else {
+			v = val{k: 'M', m: []field{{"a", v}}}
+		}
+	}
+	return v
+}
+
 func genCtx(r *rand.Rand) ctxv {
+	if r.IntN(40) == 0 {
+		return ctxv{fields: []field{{"a", deepVal(r)}}}
+	}
 	switch r.IntN(6) {
 	case 0:
 		return ctxv{isNil: true}
